@@ -127,6 +127,7 @@ where
             last_path: std::cell::Cell::new(0),
             budgets: std::cell::Cell::new((sh.step_budget, sh.step_budget)),
             last_steps: std::cell::Cell::new(0),
+            caches: Vec::new(),
         }
     };
 
